@@ -215,6 +215,12 @@ pub fn scenario(g: &mut G, ctx: &RunCtx) -> RunReport {
         _ => None,
     };
     let eff_port = port.unwrap_or(default_port);
+    // the selected proxy may be down (refuses the connection): the request fails, it does not quietly go
+    // to the origin instead.  Drawn last: recorded tapes keep their meaning.
+    let proxy_down = proxy_kind != 0 && g.chance(1, 8);
+    if proxy_down {
+        g.probe("selected-proxy-refuses-the-connection");
+    }
     let sim = Sim::new(ctx.sim_config());
     let seen_origin = Arc::new(Mutex::new(Seen::default()));
     let seen_proxy = Arc::new(Mutex::new(Seen::default()));
@@ -279,11 +285,12 @@ pub fn scenario(g: &mut G, ctx: &RunCtx) -> RunReport {
         }
     };
     {
+        let plat = if proxy_down { ConnectBehaviour::Refuse { latency_ns: NS_PER_MS } } else { lat };
         let mk = mk_dual.clone();
-        sim.add_listener(proxy_ip, 3128, lat, Some(Box::new(move |_i| mk())));
+        sim.add_listener(proxy_ip, 3128, plat, Some(Box::new(move |_i| mk())));
         let mk = mk_dual.clone();
         let tl = Arc::new(Mutex::new(TlsLog::default()));
-        sim.add_listener(proxy_ip, 3129, lat, Some(Box::new(move |i| Box::new(TlsPeer::new("good", mk(), tl.clone(), i.conn)))));
+        sim.add_listener(proxy_ip, 3129, plat, Some(Box::new(move |i| Box::new(TlsPeer::new("good", mk(), tl.clone(), i.conn)))));
     }
     let out = sim.run(|| {
         let mut pb = attohttpc::ProxySettings::builder();
@@ -329,7 +336,16 @@ pub fn scenario(g: &mut G, ctx: &RunCtx) -> RunReport {
             );
         }
         if out.history.connects.len() != 1 {
-            return violation("connection-count", format!("{} connects", out.history.connects.len()));
+            return violation(
+                if proxy_down { "went-elsewhere-when-the-proxy-was-down" } else { "connection-count" },
+                format!("{} connects: {:?}", out.history.connects.len(), out.history.connects.iter().map(|c| c.addr).collect::<Vec<_>>()),
+            );
+        }
+        if proxy_down {
+            return match res {
+                Err(_) if seen_origin.lock().unwrap().requests.is_empty() => Verdict::Pass,
+                other => violation("succeeded-although-the-proxy-was-down", format!("result {:?} for {} with proxy {:?} refusing connections", other, url_s, proxy_url)),
+            };
         }
         let decode = |s: &str| crate::mpref::percent_decode(s.as_bytes(), false);
         let check_origin_form = |r: &crate::httpref::ParsedRequest| -> Verdict {
@@ -397,7 +413,7 @@ pub fn scenario(g: &mut G, ctx: &RunCtx) -> RunReport {
     })();
     RunReport {
         verdict,
-        shape: format!("{}/{}/port={:?}/p={}/q={}/f={}/u={}/pc={}", route, host, port.map(|p| p == default_port), path.len().min(2), query.len().min(2), !fragment.is_empty(), userinfo.len().min(6), proxy_cred),
+        shape: format!("{}/{}/port={:?}/p={}/q={}/f={}/u={}/pc={}/down={}", route, host, port.map(|p| p == default_port), path.len().min(2), query.len().min(2), !fragment.is_empty(), userinfo.len().min(6), proxy_cred, proxy_down),
         nontrivial: true,
         stats,
         sched_tape: out.sched_tape,
